@@ -68,7 +68,7 @@ def incompr(ctx, dim, N):
     if ctx.mode == "sym":
         div = 0
         for d in range(dim):
-            div = div + symrun.SymReal(D(symrun.lift(out[d, 0]), x[d].t))
+            div = div + symrun.from_term(D(symrun.lift(out[d, 0]), x[d].t))
         ctx.ensure("divergence=0", ctx.eq(div, 0), using=nz)
         # mean over the iid standard-normal amplitudes: the output is affine in z with constant
         # part u_mean e_1 (all amplitudes set to zero)
